@@ -376,19 +376,35 @@ func transformed(rt *rapid.T, items []*item, extra []*item, moved int) (Run, []s
 	type ref struct {
 		extra bool
 		i     int
+		bulk  *lang.TopItem
 	}
 	var merged []ref
 	for _, i := range seqOrder {
-		merged = append(merged, ref{false, i})
+		merged = append(merged, ref{extra: false, i: i})
 	}
 	if rapid.Bool().Draw(rt, "insert") {
 		pos := 0
 		for xi := range extra {
 			pos = rapid.IntRange(pos, len(merged)).Draw(rt, "insertAt")
-			merged = append(merged[:pos], append([]ref{{true, xi}}, merged[pos:]...)...)
+			merged = append(merged[:pos], append([]ref{{extra: true, i: xi}}, merged[pos:]...)...)
 			pos++
 		}
 		transform = append(transform, fmt.Sprintf("insert %d unrelated item(s)", len(extra)))
+	}
+	// (3b) many unrelated declarations in front: 60 or 130 and-groups, each with one forward reference.
+	// Whatever fc counts or caches per declaration is far larger after them than in the base run.
+	if rapid.IntRange(0, 5).Draw(rt, "bulk") == 0 {
+		k := rapid.SampledFrom([]int{60, 130}).Draw(rt, "bulkGroups")
+		var front []ref
+		for i := 0; i < k; i++ {
+			a, b := fmt.Sprintf("Bk%d", i), fmt.Sprintf("Fw%d", i)
+			front = append(front, ref{bulk: &lang.TopItem{Types: []*lang.TypeDecl{
+				{Rec: &lang.RecDecl{Name: a, Fields: []lang.Field{{Name: fmt.Sprintf("Nx%d", i), T: lang.TRec(b)}}}},
+				{Rec: &lang.RecDecl{Name: b, Fields: []lang.Field{{Name: fmt.Sprintf("Vx%d", i), T: lang.TInt}}}, And: true},
+			}}})
+		}
+		merged = append(front, merged...)
+		transform = append(transform, fmt.Sprintf("insert %d unrelated and-groups with forward references in front", k))
 	}
 	// (4) cut into files in different directories
 	nfiles := 1
@@ -412,7 +428,9 @@ func transformed(rt *rapid.T, items []*item, extra []*item, moved int) (Run, []s
 		onlyDecls := true
 		for _, r := range merged[cuts[f]:cuts[f+1]] {
 			var it *lang.TopItem
-			if r.extra {
+			if r.bulk != nil {
+				it = r.bulk
+			} else if r.extra {
 				it = extra[r.i].it
 			} else {
 				it = items[r.i].it
